@@ -46,6 +46,10 @@ pub fn grammar_literals() -> Vec<J> {
     // grammar of its own (optional sign, separators) accepts what is not a number
     for base in ["0x5208", "21000", "0xff", "0x0", "0", "0b11", "0o17", "0X10"] { for ins in ["+", "-", " ", "_", "0x", ".", "\t", "'", ",", "0"] { for pos in 0..=base.len() {
         let t = format!("{}{ins}{}", &base[..pos], &base[pos..]); let j = J::Str(t); if !v.contains(&j) { v.push(j); } } } }
+    // characters that BECOME a digit when their code point is cut to one byte (or to seven bits, or to sixteen): U+0131 -> '1',
+    // U+0665 -> 'e', U+1F535 -> '5' ... - in place of every character of a valid spelling (a table indexed with `c as u8`)
+    for base in ["1", "21000", "0x5208", "0xff", "0b11", "0o17", "+1"] { for (pos, c) in base.char_indices() { for off in [0x80u32, 0x100, 0x600, 0x3000, 0xff00, 0x1_0000, 0x1_f500] {
+        if let Some(a) = char::from_u32(c as u32 + off) { let t = format!("{}{a}{}", &base[..pos], &base[pos + 1..]); let j = J::Str(t); if !v.contains(&j) { v.push(j); } } } } }
     v
 }
 pub fn slots() -> Vec<(Kind, bool, &'static str, usize)> { // (kind, with chain id, field, position in the signed RLP list)
